@@ -28,6 +28,9 @@ CONFIGS = {
     "C": ["-p", "tiny-std", "--no-default-features", "--features", "global-allocator"],
     # derived parsers, macro-expanded
     "D": ["-p", "tiny-cli", "--tests"],
+    # derived parsers for the /verif-owned shape corpus (sa/shapes/*.rs), added as extra integration-test targets to a scratch
+    # COPY of the tree under analysis (the repository itself is not touched)
+    "S": ["-p", "tiny-cli", "--tests"],
     # release MIR (no debug assertions)
     "R": ["-p", "tiny-std", "--features", A_FEATURES, "--release"],
     # aarch64 arms
@@ -39,6 +42,7 @@ EXPECTED_CRATES = {
     "B": {"rusl", "tiny_start", "tiny_std", "tiny_cli"},
     "C": {"rusl", "tiny_std"},
     "D": {"rusl", "tiny_std", "tiny_cli", "derive_test"},
+    "S": {"rusl", "tiny_std", "tiny_cli", "derive_test", "verif_shapes"},
     "R": {"rusl", "tiny_start", "tiny_std"},
     "X": {"rusl", "tiny_start", "tiny_std"},
 }
@@ -76,6 +80,12 @@ def extract(config, repo=None):
             "CARGO_NET_OFFLINE": "true",
         })
         env.pop("RUSTC_WRAPPER", None)
+        if config == "S":
+            copy = os.path.join(scratch, "repo")
+            subprocess.run(["rsync", "-a", "--exclude", "target", "--exclude", ".git", repo.rstrip("/") + "/", copy + "/"], check=True)
+            for f in sorted(glob.glob(os.path.join(VERIF, "sa", "shapes", "*.rs"))):
+                shutil.copy(f, os.path.join(copy, "tiny-cli", "tests", os.path.basename(f)))
+            repo = copy
         cmd = ["cargo", "+nightly", "check", "--offline", "--quiet"] + CONFIGS[config]
         t0 = time.time()
         p = subprocess.run(cmd, cwd=repo, env=env, stdout=subprocess.PIPE, stderr=subprocess.STDOUT, text=True)
